@@ -82,7 +82,7 @@ def _cmp_value(a: Any, b: Any, tol: float) -> str | None:
     return None if a == b else "values differ"
 
 
-def compare(a: dict, b: dict, tol: float = 1e-10, skip_values: tuple = ("statistics",), time_tol: float = 0.0, skip_counters: bool = False) -> list[str]:
+def compare(a: dict, b: dict, tol: float = 1e-10, skip_values: tuple = ("statistics",), time_tol: float = 0.0, skip_counters: bool = False, tol_by_tag: dict | None = None) -> list[str]:
     """Differences between two canonical results (empty list = equal)."""
     diffs: list[str] = []
     if a["atom_order"] != b["atom_order"]:
@@ -107,7 +107,7 @@ def compare(a: dict, b: dict, tol: float = 1e-10, skip_values: tuple = ("statist
         for (t, va), (_, vb) in zip(la, lb):
             if skip_counters and isinstance(va, dict) and "__counter__" in va:
                 continue
-            d = _cmp_value(va, vb, tol)
+            d = _cmp_value(va, vb, (tol_by_tag or {}).get(tag, tol))
             if d is not None:
                 diffs.append(f"{tag}@{t!r}: {d}")
                 break
